@@ -18,7 +18,7 @@ import unittest
 import struct
 
 # Site-Packages
-from numpy import zeros, array, newaxis
+from numpy import zeros, array
 
 # This Package modules
 from PseudoNetCDF.camxfiles.timetuple import timediff, timerange
@@ -109,7 +109,11 @@ class uamiv(PseudoNetCDFFile):
         if self.name == 'EMISSIONS ':
             def constr(spc):
                 return self.getArray(
-                    nspec=spcnames.index(spc)).squeeze()[:, newaxis, :, :]
+                    nspec=spcnames.index(spc)).reshape(
+                        len(self.dimensions['TSTEP']),
+                        len(self.dimensions['LAY']),
+                        len(self.dimensions['ROW']),
+                        len(self.dimensions['COL']))
 
             def decor(spc):
                 return dict(units=units, var_desc=spc,
